@@ -13,13 +13,19 @@ META = {
         "P (proved on the real bodies of EventQueueManager, events abstracted to their identities): inject_event appends exactly the "
         "event to the pending queue and keeps everything queued before; take_injected_events returns everything queued, in order, and "
         "leaves the queue empty (so each injected event is taken exactly once); cache_last_poll_response / get_cached_poll_response "
-        "return the cached payload exactly for the ack it was stored under; clear empties queue and cache. B (bounded): the event "
-        "merge in MITMProxyEventManager._handle_response (filter swallowed, append injected, undef when emptied, cache by ack), the "
-        "replay of a repeated poll, non-200 responses and region registration - poll histories against a reference queue."),
+        "return the cached payload exactly for the ack it was stored under; clear empties queue and cache. "
+        "MITMProxyEventManager._handle_response (quick tier: EventQueueGet branch with the logger absent; thorough tier: every branch), "
+        "LLSD values unmodelled, control proved as ghost call-log obligations: a simulator event stays in the response iff its handler "
+        "did not swallow it, and it is that event; injected events are taken at most once and appended after the simulator's; the "
+        "response is cached exactly once under the request's ack and the body written back is made from the cached payload; nothing is "
+        "merged for non-200 responses, for flows the proxy injected itself or when an addon handled the response. "
+        "B (bounded): whole poll histories against a reference queue (delivery exactly once and in order, undef when emptied, replay of a "
+        "repeated poll, non-200 responses, region registration from events)."),
     "trusted_base": [
         "events are treated parametrically (only appended / moved): identity abstraction to integers",
         "the wake-up PlacesQuery sent by inject_event goes through Circuit.send (C05); weakref proxy truthiness is external",
-        "_handle_response EQ branch / _handle_eq_event: LLSD dict manipulation outside the subset - bounded tier only",
+        "_handle_eq_event and the request-side replay (_handle_request): bounded tier only; in _handle_response the LLSD values, lists and "
+        "weak references are unmodelled (lookups are pure reads) - only the control of the merge is proved",
     ],
 }
 
